@@ -48,7 +48,7 @@ def run(ctx):
         "cloudwego/gopkg BinaryProtocol (ReadFieldBegin, Skip, Append*) as modelled by Core.Wire",
         "process level is runtime-observed: exit status, stderr, output tree, request digest recorded by the plugin, /proc/<pid> after the time limit"]
     ctx.partial += ["process faults (exit code, timeout kill, pipes) are observed at run time, the theorem fault_fails covers the decision logic only",
-                    "decompress with the compressor's own map (the deferred revert in Execute) is proved but reachable in-process only through the nil-map path",
+                    "decompress with the compressor's own map (the deferred revert in Execute) is proved; it runs only in the gate-on process scenarios (observed through the next plugin's digest)",
                     "request_roundtrip states byte-equality of re-encoding (decoded object writes the same bytes), not Go-level DeepEqual: nil and empty containers are identified"]
     if exe and ctx.replay:
         cmd = [exe, "replay", "-repo", core.REPO, "-file", ctx.replay]
